@@ -49,6 +49,7 @@ def main(seed):
     wt = f"/tmp/wt/eval_{pid}_{mname}"
     sh(f"git -C /repo worktree remove --force {wt}")
     rc, out = sh(f"git -C /repo worktree add --detach {wt} HEAD")
+    viol = []
     res = {"property": pid, "seed": mname, "demo_placement": place, "demo_cmd": cmd}
     try:
         for f in demo_files:
@@ -69,27 +70,36 @@ def main(seed):
         res["demo_fails_with_patch"] = fails_with
         res["builds_with_patch"] = "cannot" not in outb and "error" not in outb.lower()
         res["demo_output_with_patch"] = out2[-1200:]
-    finally:
-        sh(f"git -C /repo worktree remove --force {wt}")
-        sh("git -C /repo worktree prune")
-    # run the check against /repo with the patch applied
-    rc, st = sh("git -C /repo status --porcelain")
-    if st.strip():
-        res["error"] = "/repo is not clean; check not run"
-        print(res["error"])
-    else:
-        sh(f"git -C /repo apply {seed}/patch.diff")
+        # the existing test suite, unedited, with the patch (demo files removed)
+        for f in demo_files:
+            os.remove(os.path.join(wt, place, f))
+        for rel in nested:
+            os.remove(os.path.join(wt, rel))
+        rct, outt = sh("go test -p 8 -vet=off -count=1 ./... 2>&1 | grep -E '^(FAIL|ok|panic)|--- FAIL' | grep -v '^ok' | head -40", cwd=wt, timeout=3000)
+        failing = set(re.findall(r"--- FAIL: (\S+)", outt))
+        allowed = {"TestScript", "TestScript/fmt_issue1791", "TestScript/modload_unreadable_file"}
+        flaky = {"TestScript/cmd_serve", "TestScript/cmd_concurrent"}
+        rerun = failing & flaky
+        if rerun:
+            rcr, outr = sh("go test -vet=off -count=1 ./cmd/cue/cmd -run 'TestScript/(cmd_serve|cmd_concurrent)$' 2>&1 | tail -3", cwd=wt)
+            if outr.strip().startswith("ok") or "\nok" in outr:
+                failing -= flaky
+        pkgfail = [l for l in outt.splitlines() if l.startswith("FAIL\t") and "cmd/cue/cmd" not in l]
+        res["existing_tests_pass_with_patch"] = not (failing - allowed) and not pkgfail and "panic" not in outt
+        res["existing_tests_failures_with_patch"] = sorted(failing - allowed) + pkgfail
+        # run the property's check on the patched tree (the scratch worktree is /repo's
+        # HEAD plus the patch: the same tree `git -C /repo apply` would give)
         t0 = time.time()
-        try:
-            rc, out = sh(f"/verif/bin/govc check -prop {pid} -tier quick -no-evidence 2>&1 | grep -v '^UNDECIDED' | tail -8", cwd="/verif", timeout=1500)
-        finally:
-            sh(f"git -C /repo apply -R {seed}/patch.diff")
+        rc, out = sh(f"/verif/bin/govc check -prop {pid} -tier quick -no-evidence -repo {wt} -out seed_{pid}_{mname} 2>&1 | grep -v '^UNDECIDED' | tail -8", cwd="/verif", timeout=2400)
         viol = [l for l in out.splitlines() if l.startswith("VIOLATION")]
-        res["check_cmd"] = f"/verif/bin/govc check -prop {pid} -tier quick (with patch applied to /repo, reverted afterwards)"
+        res["check_cmd"] = f"/verif/bin/govc check -prop {pid} -tier quick (on /repo's HEAD with the patch applied)"
         res["check_detects"] = len(viol) > 0
         res["check_violations"] = viol
         res["check_tail"] = out[-800:]
         res["check_seconds"] = round(time.time() - t0, 1)
+    finally:
+        sh(f"git -C /repo worktree remove --force {wt}")
+        sh("git -C /repo worktree prune")
     dst = f"/verif/seeded/{pid}-{mname}"
     os.makedirs(dst, exist_ok=True)
     for f in os.listdir(seed):
@@ -99,10 +109,10 @@ def main(seed):
         os.makedirs(os.path.dirname(os.path.join(dst, rel)), exist_ok=True)
         shutil.copy(os.path.join(seed, rel), os.path.join(dst, rel))
     meta["breaks_property"] = pid
-    meta["confirmed_by_us"] = {k: res.get(k) for k in ("demo_placement", "demo_cmd", "demo_passes_without_patch", "demo_fails_with_patch", "builds_with_patch")}
+    meta["confirmed_by_us"] = {k: res.get(k) for k in ("demo_placement", "demo_cmd", "demo_passes_without_patch", "demo_fails_with_patch", "builds_with_patch", "existing_tests_pass_with_patch", "existing_tests_failures_with_patch")}
     meta["our_check"] = {k: res.get(k) for k in ("check_cmd", "check_detects", "check_violations", "check_seconds")}
     json.dump(meta, open(os.path.join(dst, "meta.json"), "w"), indent=1)
-    print(f"{pid}/{mname}: demo passes without patch={res.get('demo_passes_without_patch')}, fails with patch={res.get('demo_fails_with_patch')}, check detects={res.get('check_detects')} {viol[:1]}")
+    print(f"{pid}/{mname}: demo passes without patch={res.get('demo_passes_without_patch')}, fails with patch={res.get('demo_fails_with_patch')}, suite ok={res.get('existing_tests_pass_with_patch')}, check detects={res.get('check_detects')} {viol[:1]}")
     return res
 
 if __name__ == "__main__":
